@@ -244,6 +244,15 @@ class FastParetoOptimalAlgorithm(BaseParetoOptimalAlgorithm):
     ascending_indices = (points[:, 0]).argsort()
     sorted_points = points[ascending_indices]
     split_index = round(len(points) / 2)
+    # Points tied in the first coordinate can dominate each other in either
+    # direction, so the split must fall between distinct first coordinates.
+    split_value = sorted_points[split_index][0]
+    while sorted_points[split_index][0] == split_value:
+      split_index += 1
+      # Hard to find a clean split. Resort to simple algorithm.
+      if split_index == len(sorted_points):
+        return np.array(
+            self._base_algorithm.is_pareto_optimal(points), dtype=bool)
 
     # Recurse on both subarrays and check for cross domination.
     lower_array = sorted_points[:split_index]
